@@ -128,10 +128,8 @@ fn add_types_prefix(ts_type: &str) -> String {
 
     // Handle arrays: CustomType[] -> types.CustomType[]
     if let Some(base_type) = ts_type.strip_suffix("[]") {
-        if matches!(base_type, "string" | "number" | "boolean" | "void") {
-            return ts_type.to_string();
-        }
-        return format!("types.{}[]", base_type);
+        // The element type may itself be an array, a tuple or a primitive: prefix it recursively
+        return format!("{}[]", add_types_prefix(base_type));
     }
 
     // Handle Record/Map - they contain types but the structure itself doesn't need prefix
